@@ -628,3 +628,53 @@ def rule_T4(ctx):
             res.fail('UTMUPS', name, '', '%s: %s != %s (%s)' % (name, lhs, rhs, why))
     res.analysed['relations'] = n
     return res, n
+
+
+# ------------------------------------------------------------------ F1: documented mode flags
+FLAG_TABLE = [
+    # (caller class, callee classes, parameter name, required value, reason)
+    (NS + 'Ellipsoid', (NS + 'AuxLatitude', NS + 'DAuxLatitude'), 'exact', 1,
+     'Ellipsoid.hpp: "a wrapper on top of the AuxLatitude class which is called with exact = true"'),
+]
+
+
+def rule_F1(ctx):
+    res = RuleResult('F1', 'documented mode flags: every call from Ellipsoid into AuxLatitude passes exact = true '
+                           '(the series default is only valid for small flattening; Ellipsoid promises the exact forms)')
+    n = 0
+    for caller, callees, pname, want, why in FLAG_TABLE:
+        for f in sorted(ctx.lib_fns(), key=lambda x: (x.file, x.line)):
+            if f.cls != caller:
+                continue
+            sites = [(i, nd) for i, nd in f.all_nodes()] + \
+                    [(it['init'], f.nodes[f.strip(it['init'])]) for it in f.d.get('inits', []) if it['init'] >= 0]
+            seen = set()
+            for i, nd in sites:
+                ce = nd.get('callee')
+                if not ce or ce.get('cls') not in callees or pname not in ce.get('pn', []) or i in seen:
+                    continue
+                seen.add(i)
+                j = ce['pn'].index(pname)
+                args = nd.get('args', [])
+                n += 1
+                val = None
+                if j < len(args):
+                    an = f.nodes[args[j]]
+                    for k in f.walk(args[j]):
+                        kn = f.nodes[k]
+                        if 'cv' in kn:
+                            val = int(kn['cv'])
+                            break
+                        if kn['k'] == 'CXXBoolLiteralExpr':
+                            val = int(kn['v'])
+                            break
+                    if an['k'] == 'CXXDefaultArgExpr' and val is None:
+                        val = 0
+                ok = val == want
+                res.ob(ok, {'call': '%s -> %s' % (f.q, ce['q']), 'at': f.loc(i), pname: val} if (not ok or n % 5 == 1) else None)
+                if not ok:
+                    res.fail(f.q, '%s(%s)' % (ce['name'], pname), f.loc(i),
+                             '%s calls %s with %s = %s, but %s' % (f.q, ce['q'], pname,
+                                                                   'the default (false)' if val in (0, None) else val, why))
+    res.floor('flagged call sites', n, 12)
+    return res
